@@ -393,8 +393,91 @@ func runCase(c *core.Ctx, r *core.Result, stream string, i int, rng *rand.Rand, 
 		_ = quickfix.ParseMessageWithDataDictionary(reuse, bytes.NewBuffer(assemble(m, h2, append(b2, fixwire.Field{Tag: 58, Val: "x"}), t2)), m.tr, m.app)
 	}
 	checkWellFormed(r, m, hdr, body, trl, xml, reuse)
+	if i%8 == 0 {
+		checkGroupThenXML(r, rng, m)
+	}
 	checkOrderObservable(r, m, hdr, body, trl)
 	checkCorruptions(r, rng, m, hdr, body, trl, xml)
+}
+
+// checkGroupThenXML: a dictionary-defined repeating group in the body, directly followed by XMLDataLen/XMLData
+// (header fields placed after the body, which the parser accepts) whose payload contains SOH bytes: the payload
+// must still be taken by its length, every field must sit in its section with its wire value, the group must
+// read back entry by entry, and nothing may be invented.
+func checkGroupThenXML(r *core.Result, rng *rand.Rand, m *mode) {
+	if m.app == nil {
+		return
+	}
+	type gdef struct{ counter, delim, second int }
+	g := gdef{78, 79, 80} // NoAllocs: AllocAccount, AllocQty (FIX44 NewOrderSingle)
+	if m.msgType == "8" {
+		g = gdef{382, 375, 337} // NoContraBrokers: ContraBroker, ContraTrader (ExecutionReport)
+	}
+	hdr := fixwire.Fields{{Tag: 49, Val: "S"}, {Tag: 56, Val: "T"}}
+	body := fixwire.Fields{{Tag: 11, Val: randVal(rng) + "x"}, {Tag: 58, Val: "t"}}
+	n := 1 + rng.Intn(3)
+	var grp fixwire.Fields
+	type entry struct{ a, b string }
+	var want []entry
+	for i := 0; i < n; i++ {
+		e := entry{fmt.Sprintf("a%d", i), fmt.Sprint(1 + rng.Intn(9))}
+		want = append(want, e)
+		grp = append(grp, fixwire.Field{Tag: g.delim, Val: e.a}, fixwire.Field{Tag: g.second, Val: e.b})
+	}
+	d := make([]byte, 2+rng.Intn(30))
+	for i := range d {
+		d[i] = byte('a' + rng.Intn(26))
+	}
+	switch rng.Intn(3) {
+	case 0: // the rest of the payload looks like a field
+		d = append(append(d[:1:1], []byte("\x0158=forged")...), d[1:]...)
+	case 1:
+		d[rng.Intn(len(d))] = 1
+	default:
+		d[0], d[len(d)-1] = 1, 1
+	}
+	rest := fixwire.Fields{{Tag: 35, Val: m.msgType}}
+	rest = append(rest, hdr...)
+	rest = append(rest, body...)
+	rest = append(rest, fixwire.Field{Tag: g.counter, Val: fmt.Sprint(n)})
+	rest = append(rest, grp...)
+	rest = append(rest, fixwire.Field{Tag: 212, Val: fmt.Sprint(len(d))}, fixwire.Field{Tag: 213, Val: string(d)})
+	raw := fixwire.Build(m.begin, rest)
+	tc := tcase{Mode: m.name, Wire: fixwire.Pipe(raw), Expect: "parse ok, fields retrievable"}
+	r.Eval(1)
+	msg, err := parse(m, raw)
+	if err != nil {
+		r.Violate("C11/rejects-wellformed/"+m.name+"/xmldata-after-group", fmt.Sprintf("well-formed message refused: %v; wire %q", err, tc.Wire), tc)
+		return
+	}
+	if v, e := msg.Header.GetBytes(213); e != nil || !bytes.Equal(v, d) {
+		r.Violate("C11/wrong-value/header/"+m.name+"/xmldata-after-group", fmt.Sprintf("XMLData reads %q (%v), the wire carries %d bytes %q; wire %q", v, e, len(d), d, tc.Wire), tc)
+		return
+	}
+	for _, f := range body {
+		if v, e := msg.Body.GetBytes(quickfix.Tag(f.Tag)); e != nil || string(v) != f.Val {
+			r.Violate("C11/wrong-value/body/"+m.name+"/xmldata-after-group", fmt.Sprintf("tag %d reads %q (%v), wire value %q; wire %q", f.Tag, v, e, f.Val, tc.Wire), tc)
+			return
+		}
+	}
+	rg := quickfix.NewRepeatingGroup(quickfix.Tag(g.counter), quickfix.GroupTemplate{quickfix.GroupElement(quickfix.Tag(g.delim)), quickfix.GroupElement(quickfix.Tag(g.second))})
+	if e := msg.Body.GetGroup(rg); e != nil || rg.Len() != n {
+		r.Violate("C11/group-after-parse/"+m.name+"/xmldata-after-group", fmt.Sprintf("group %d reads back %d entries (%v), the wire has %d; wire %q", g.counter, rg.Len(), e, n, tc.Wire), tc)
+		return
+	}
+	for i, w := range want {
+		a, _ := rg.Get(i).GetString(quickfix.Tag(g.delim))
+		b, _ := rg.Get(i).GetString(quickfix.Tag(g.second))
+		if a != w.a || b != w.b {
+			r.Violate("C11/group-after-parse/"+m.name+"/xmldata-after-group", fmt.Sprintf("entry %d of group %d reads (%q,%q), wire (%q,%q); wire %q", i, g.counter, a, b, w.a, w.b, tc.Wire), tc)
+			return
+		}
+	}
+	if nb, nh := len(msg.Body.Tags()), len(msg.Header.Tags()); nb != len(body)+1 || nh != len(hdr)+3+2 {
+		r.Violate("C11/field-count/"+m.name+"/xmldata-after-group", fmt.Sprintf("header holds %d tags (wire %d), body %d (wire %d with the group as one); wire %q", nh, len(hdr)+5, nb, len(body)+1, tc.Wire), tc)
+		return
+	}
+	r.Nontrivial(fmt.Sprintf("%s group-then-xml n%d l%d", m.name, n, len(d)))
 }
 
 func run(c *core.Ctx, r *core.Result) {
